@@ -4,11 +4,14 @@ package sym
 
 import (
 	"fmt"
+	"os"
 	"go/types"
 	"sort"
 	"strings"
 	"sync/atomic"
 )
+
+var debugPicks = os.Getenv("VERIF_DEBUG_PICKS") != ""
 
 // Decision is one recorded choice on a path.
 type Decision struct {
@@ -351,6 +354,9 @@ func (i *interpreter) concretize(v value, what string) int64 {
 				i.abort("unsupported", "cannot evaluate pick term at "+what)
 			}
 			val = ev.U
+		}
+		if debugPicks {
+			fmt.Fprintf(os.Stderr, "pick %s = %d  term=%s\n", what, toI(val), s.t.String())
 		}
 		c := st.Eq(s.t, st.BVConst(val, w))
 		// is another value possible?
